@@ -32,6 +32,18 @@ fn main() {
         println!("; features: {:?} fault: {:?}", g.features, g.fault);
         return;
     }
+    if id == "sexp" {
+        // debugging aid: the syntax tree of a Python text and its outermost error nodes
+        let text = args[2].replace("\\n", "\n");
+        let tree = tsgv::pysrc::parse(&text);
+        println!("{}", tree.root_node().to_sexp());
+        println!("{:?}", props::c18::expected_errors(&tree));
+        return;
+    }
+    if id == "C05" && args.get(2).map(|a| a == "--crash-probe").unwrap_or(false) {
+        props::c05::crash_probe_child();
+        return;
+    }
     engine::silence_stderr();
     if id == "C12" && args[2] == "--child" {
         let seed: u64 = args.get(3).and_then(|s| s.parse().ok()).unwrap_or(1);
